@@ -70,7 +70,8 @@ Instances(t, prev) ==
            vals == EvalAll(ins, 1)
        IN <<vals>> \o Instances(t + 1, vals)
 
-Finish == /\ ~done /\ WellFormed /\ done' = TRUE /\ UNCHANGED <<nIn, gates, cur, nInst, series>>
+\* Series takes an OUTPUT variable of the circuit: the dependency must still be on an output when the topology is complete
+Finish == /\ ~done /\ WellFormed /\ (series = NoSeries \/ IsOutput(series.gate)) /\ done' = TRUE /\ UNCHANGED <<nIn, gates, cur, nInst, series>>
           /\ (IF Emit THEN PrintT("BEH" \o ToJson([nIn |-> nIn, gates |-> gates, nInst |-> nInst, series |-> series,
                                                    outputs |-> {g \in 1..Len(gates) : IsOutput(g)},
                                                    probe |-> Instances(0, <<>>)])) ELSE TRUE)
